@@ -235,6 +235,23 @@ class InterpBase(CtxMixin):
         elif isinstance(target, ast.Subscript):
             self.setitem(self.eval(target.value, env), self.eval_index(target.slice, env), value)
         elif isinstance(target, (ast.Tuple, ast.List)):
+            stars = [k for k, t in enumerate(target.elts) if isinstance(t, ast.Starred)]
+            if stars:
+                # a, b, *rest = value (one starred target): rest is a fresh list of the middle items
+                if len(stars) > 1:
+                    raise Unsupported('several starred assignment targets')
+                k, n = stars[0], len(target.elts)
+                items = self.iterate(value)
+                if len(items) < n - 1:
+                    py_raise('ValueError', 'unpack')
+                tail = n - 1 - k
+                mid = items[k:len(items) - tail]
+                for t, v in zip(target.elts[:k], items[:k]):
+                    self.assign(t, v, env)
+                self.assign(target.elts[k].value, self.new_list(list(mid)), env)
+                for t, v in zip(target.elts[k + 1:], items[len(items) - tail:]):
+                    self.assign(t, v, env)
+                return
             items = self.unpack(value, len(target.elts))
             for t, v in zip(target.elts, items):
                 self.assign(t, v, env)
